@@ -24,6 +24,23 @@ pub open spec fn ext_map(exts: Seq<(String, String)>) -> Map<OsString, OsString>
     ext_map_upto(exts, exts.len() as int)
 }
 
+/// C16 / A1: "later entries overriding earlier ones": the value under a key is the value of the LAST
+/// `-E` entry with that key
+pub proof fn lemma_ext_map_later_entry_wins(exts: Seq<(String, String)>, n: int, i: int)
+    requires
+        0 <= i < n <= exts.len(),
+        forall|j: int| i < j < n ==> osstring_of((#[trigger] exts[j]).0@) != osstring_of(exts[i].0@),
+    ensures
+        ext_map_upto(exts, n).contains_key(osstring_of(exts[i].0@)), // [A1.lemma.later_entry_overrides_earlier]
+        ext_map_upto(exts, n)[osstring_of(exts[i].0@)] == osstring_of(exts[i].1@),
+    decreases n,
+{
+    if i < n - 1 {
+        lemma_ext_map_later_entry_wins(exts, n - 1, i);
+        assert(osstring_of(exts[n - 1].0@) != osstring_of(exts[i].0@));
+    }
+}
+
 /// `outs` is, entry by entry, the converted pair list of `exts`
 pub open spec fn is_ext_pairs(outs: Seq<(OsString, OsString)>, exts: Seq<(String, String)>) -> bool {
     outs.len() == exts.len()
